@@ -228,7 +228,7 @@ theorem encodeMembersDict_nil (kvs : List (Name × PyVal)) : encodeMembersDict .
   simp [encodeMembersDict]
 
 theorem encodeMembersDict_some (nm : Name) (t : Ty) (ms : Members) (kvs : List (Name × PyVal))
-    (v : PyVal) (a r : Bytes) (hg : dictGet kvs nm = some v) (he : encode t v = .ok a)
+    (v : PyVal) (a r : Bytes) (hg : dictGet kvs nm = some v) (he : encode t (argOf t v) = .ok a)
     (hr : encodeMembersDict ms kvs = .ok r) :
     encodeMembersDict (.cons (some nm) t ms) kvs = .ok (a ++ r) := by
   rw [encodeMembersDict]
